@@ -876,3 +876,35 @@ def c12(run, selftest=True):
         "and the absent item, transparency law as invariant. Replay: every chain x form instantiated over bool, u8, i64, String, char, Path, Ident, Expr, LitStr, PathList, a struct receiver, an enum "
         "receiver, a string map and 16 probe implementers (Box as Box/Rc/Arc/RefCell), several concrete items per form: outer outcome vs law(inner outcome), error text and span, inner hooks called, "
         "SpannedValue range, WithOriginal copy, from_none. A case is one (chain, form).")
+
+
+# =====================================================================================================
+# C13 - syntax-typed values
+# =====================================================================================================
+
+@plan("C13")
+def c13(run, selftest=True):
+    run.build()
+    frags = run.path("fragments.ndjson")
+    info = run.vh("fragments", frags)          # syn as the oracle: which grammars accept which fragment, what it is when written bare
+    run.extra["fragments"] = info["fragments"]
+    res = run.tlc("SynTargets", simple_cfg("C13_Matrix EmitDone"), "syntargets", workers=4, env={"FRAGMENTS": frags})
+    run.require_tlc_ok(res, "SynTargets")
+    r = run.vh("replay", "syntargets", res["out"], timeout=3000)
+    run.add_replay_result("syntargets", r)
+    if selftest:
+        def flip(case):
+            if case["expect"] == "parsed" and case["t"] == "Path":
+                case["expect"] = "rejected"
+                return True
+            return False
+        tagged_selftest(run, "syntargets", res["out"], flip, "expect a quoted path to be rejected", ["replay", "syntargets"])
+    os.remove(res["out"])
+    run.assumptions = ["the grammars of paths, expressions, types, visibility and where-clauses are syn's: the fragment table (expression variant when bare, accepting grammars) is computed with syn by the harness",
+                       "invisible groups are built around the parsed value with default (call-site) delimiters"]
+    return run.finish(
+        "model_checking",
+        "31 syntax-valued targets (Expr, Path, Ident, IdentString, ExprArray / ExprPath / ExprRange, Callable, where-predicates, Lit and six literal kinds, the 15 from_syn_parse types) x 52 fragments "
+        "(paths with leading ::, turbofish, raw identifiers, keywords; binary / call / closure / block / array / range / tuple / macro expressions; literals of every kind; types; visibility; predicates) "
+        "x bare / quoted x 0..2 invisible groups: TLC checks the transcribed dispatch against the declarative accept matrix; every case is converted by the real impl and its token string compared with "
+        "the fragment as written or with the string's contents parsed directly by syn; plus the two expression helpers, whole meta items, path lists, vectors of literals and numeric arrays. A case is one (target, fragment, spelling, groups).")
